@@ -213,6 +213,32 @@ class Str:
         return f"Str({self.s!r})"
 
 
+class SymVec(Vec):
+    """Vector of symbolic length n (a z3 Int, 0..len(all_items)): resolved to a concrete prefix by forking the
+    first time its contents are used; equality on unresolved vectors is merged (fork-free)."""
+
+    def __init__(self, all_items, n, kind="Vec"):
+        super().__init__(list(all_items), kind)
+        self.all_items = list(all_items)
+        self.n = n
+        self.resolved = False
+
+
+class AtomStr(Str):
+    """A string known only up to identity: one of `table`, selected by the z3 Int `atom`."""
+
+    def __init__(self, atom, table):
+        super().__init__(None)
+        self.atom, self.table = atom, list(table)
+
+    @property
+    def conc(self):
+        return False
+
+    def __repr__(self):
+        return f"AtomStr({self.atom})"
+
+
 class Rc:
     def __init__(self, inner, ident=None):
         self.inner = inner
